@@ -38,9 +38,9 @@ EINSUM["thorough"] = EINSUM["quick"] + [
 ]  # fmt: skip
 
 TD_PAIRS = {
-    "quick": [((3,), (3,)), ((4,), (4,)), ((2, 3), (3,)), ((3,), (3, 2)), ((2, 3), (3, 2)), ((2, 3), (2, 3)), ((2, 2, 3), (3, 2)), ((2, 3, 2), (2, 3))],
+    "quick": [((3,), (3,)), ((4,), (4,)), ((2, 3), (3,)), ((3,), (3, 2)), ((2, 3), (3, 2)), ((2, 3), (2, 3)), ((2, 4), (4, 3)), ((2, 2, 3), (3, 2)), ((2, 3, 2), (2, 3))],
 }
-TD_PAIRS["thorough"] = TD_PAIRS["quick"] + [((2, 4), (4, 3)), ((3, 4), (4, 3)), ((2, 2, 2), (2, 2, 2)), ((5,), (5,)), ((3, 3), (3, 3))]
+TD_PAIRS["thorough"] = TD_PAIRS["quick"] + [((3, 4), (4, 3)), ((2, 2, 2), (2, 2, 2)), ((5,), (5,)), ((3, 3), (3, 3))]
 DOT_PAIRS = [((3,), (3,)), ((4,), (4,)), ((2, 3), (3,)), ((3,), (3, 2)), ((2, 3), (3, 2)), ((2, 2, 3), (3, 2)), ((2, 3), (2, 3, 2)), ((3, 3), (3, 3))]
 MM_PAIRS = {
     "quick": [((3,), (3,)), ((4,), (4,)), ((2, 3), (3,)), ((3,), (3, 2)), ((2, 3), (3, 2)), ((2, 2, 3), (3, 2)), ((2, 3), (2, 3, 2)), ((2, 2, 3), (2, 3, 2)), ((1, 2, 3), (2, 3, 2)), ((2, 4), (4, 2))],
@@ -125,19 +125,20 @@ def cases_of(shard, tier):
                 if i % nparts != part:
                     continue
                 for ax in specs:
-                    for dt in ("ii", "if"):
-                        yield ("td", sa, tuple(ca), sb, tuple(cb), ax, dt, "dd")
+                    yield ("td", sa, tuple(ca), sb, tuple(cb), ax, "ii", "dd")
+                for ax in specs[:2] + specs[-1:]:  # dtype promotion int x float: the int specs and one tuple spec
+                    yield ("td", sa, tuple(ca), sb, tuple(cb), ax, "if", "dd")
                 yield ("td", sa, tuple(ca), sb, tuple(cb), specs[-1], "ii", "dn")
                 yield ("td", sa, tuple(ca), sb, tuple(cb), specs[-1], "ii", "nd")
     elif kind in ("dot", "mm"):
         sa, sb = (DOT_PAIRS if kind == "dot" else MM_PAIRS[tier])[shard[1]]
         for ca in enums.chunkings(sa):
             for cb in enums.chunkings(sb):
-                for dt in ("ii", "if"):
-                    for k in KINDS:
-                        yield (kind, sa, tuple(ca), sb, tuple(cb), "fn", dt, k)
-                        if kind == "mm":
-                            yield (kind, sa, tuple(ca), sb, tuple(cb), "op", dt, k)
+                for k in KINDS:
+                    yield (kind, sa, tuple(ca), sb, tuple(cb), "fn", "ii", k)
+                    if kind == "mm":
+                        yield (kind, sa, tuple(ca), sb, tuple(cb), "op", "ii", k)  # __matmul__ / __rmatmul__
+                yield (kind, sa, tuple(ca), sb, tuple(cb), "fn", "if", "dd")  # dtype promotion
     elif kind == "outer":
         for sa in OUTER_SHAPES:
             for sb in OUTER_SHAPES:
